@@ -109,10 +109,8 @@ func VP_C20_readinode_slow_symlink() {
 		return
 	}
 	vp.Assert(len(in.linkTarget) == size, "target length = i_size")
+	ok := 1
 	for j := 0; j < 64; j++ {
-		if !vp.Thorough() && j > 1 && j < 58 && (j < 30 || j > 33) {
-			continue // quick tier: bytes around the block boundary and the end
-		}
 		if j < size && j < len(in.linkTarget) {
 			var exp byte
 			if j < bs {
@@ -120,9 +118,10 @@ func VP_C20_readinode_slow_symlink() {
 			} else {
 				exp = dev.ByteAt(int64(s1*bs) + int64(j-bs))
 			}
-			vp.Assert(in.linkTarget[j] == exp, "target byte = byte of the extent mapping that file block")
+			ok &= c20b2i(in.linkTarget[j] == exp)
 		}
 	}
+	vp.Assert(ok == 1, "every target byte = byte of the extent mapping that file block")
 	vp.Cover("slow symlink read")
 }
 
@@ -326,11 +325,11 @@ func VP_C20_open_and_read() {
 		want = int(size)
 	}
 	vp.Assert(n == want, "a file without holes delivers min(len(p), i_size) bytes at offset 0")
+	ok := 1
 	for i := 0; i < L; i++ {
-		if i < n {
-			vp.Assert(p[i] == dev.ByteAt(int64(s0*bs)+int64(i)), "file byte = device byte of the extent")
-		}
+		ok &= c20b2i(i >= n) | c20b2i(p[i] == dev.ByteAt(int64(s0*bs)+int64(i)))
 	}
+	vp.Assert(ok == 1, "every file byte = device byte of the extent")
 	fi, err := f.Stat()
 	vp.Assert(err == nil, "Stat on the open file")
 	if err == nil {
@@ -471,11 +470,13 @@ func VP_C20_api_readlink() {
 		return
 	}
 	vp.Assert(len(target) == size, "ReadLink: target length = i_size")
+	ok := 1
 	for _, j := range []int{0, 1, 30, 58} {
 		if j < size && j < len(target) {
-			vp.Assert(target[j] == raw[0x28+j], "ReadLink: target bytes")
+			ok &= c20b2i(target[j] == raw[0x28+j])
 		}
 	}
+	vp.Assert(ok == 1, "ReadLink: target bytes")
 	vp.Cover("ReadLink through the directory tree")
 }
 
